@@ -29,6 +29,10 @@ type connectTransaction struct {
 	authEnabled   bool
 	mqConnect     *mqPkts.ConnectPacket
 	authenticated bool
+	// The client has announced a will in its CONNECT packet.
+	will              bool
+	willTopicReceived bool
+	connectSent       bool
 }
 
 func newConnectTransaction(ctx context.Context, h *handler1, authEnabled bool, mqConnect *mqPkts.ConnectPacket) *connectTransaction {
@@ -46,6 +50,7 @@ func newConnectTransaction(ctx context.Context, h *handler1, authEnabled bool, m
 		log:         tLog,
 		authEnabled: authEnabled,
 		mqConnect:   mqConnect,
+		will:        mqConnect.WillFlag,
 	}
 }
 
@@ -72,15 +77,29 @@ func (t *connectTransaction) Start(ctx context.Context) error {
 		return nil
 	}
 
-	if t.mqConnect.WillFlag {
+	if t.will {
 		// Continue with WILLTOPICREQ.
 		return t.handler.snSend(snPkts1.NewWillTopicReq())
 	}
 
+	return t.sendConnect()
+}
+
+// All information successfully gathered - send MQTT connect (once).
+func (t *connectTransaction) sendConnect() error {
+	t.connectSent = true
 	return t.handler.mqttSend(t.mqConnect)
 }
 
 func (t *connectTransaction) Auth(snPkt *snPkts1.Auth) error {
+	// AUTH is a part of the transaction only if authentication is enabled
+	// and only once. Otherwise the configured credentials would be
+	// overwritten and the MQTT CONNECT packet sent repeatedly.
+	if !t.authEnabled || t.authenticated {
+		t.log.Debug("Unexpected packet ignored: %v", snPkt)
+		return nil
+	}
+
 	// Extract username and password from PLAIN data.
 	if snPkt.Method == snPkts1.AUTH_PLAIN {
 		user, password, err := snPkt.DecodePlain()
@@ -92,6 +111,7 @@ func (t *connectTransaction) Auth(snPkt *snPkts1.Auth) error {
 		t.mqConnect.Username = user
 		t.mqConnect.PasswordFlag = true
 		t.mqConnect.Password = password
+		t.authenticated = true
 	} else {
 		if err := t.SendConnack(snPkts1.RC_NOT_SUPPORTED); err != nil {
 			return err
@@ -101,16 +121,31 @@ func (t *connectTransaction) Auth(snPkt *snPkts1.Auth) error {
 		return err
 	}
 
-	if t.mqConnect.WillFlag {
+	if t.will {
 		// Continue with WILLTOPICREQ.
 		return t.handler.snSend(snPkts1.NewWillTopicReq())
 	}
 
-	// All information successfully gathered - send MQTT connect.
-	return t.handler.mqttSend(t.mqConnect)
+	return t.sendConnect()
 }
 
 func (t *connectTransaction) WillTopic(snWillTopic *snPkts1.WillTopic) error {
+	// WILLTOPIC is expected only as a reply to WILLTOPICREQ, i.e. for
+	// a CONNECT with the Will flag, after the authentication (if enabled).
+	if !t.will || (t.authEnabled && !t.authenticated) || t.connectSent {
+		t.log.Debug("Unexpected packet ignored: %v", snWillTopic)
+		return nil
+	}
+	if snWillTopic.QOS > 2 {
+		// Can't be translated to a valid MQTT CONNECT packet.
+		if err := t.SendConnack(snPkts1.RC_NOT_SUPPORTED); err != nil {
+			return err
+		}
+		err := fmt.Errorf("invalid will QoS: %d", snWillTopic.QOS)
+		t.Fail(err)
+		return err
+	}
+	t.willTopicReceived = true
 	t.mqConnect.WillQos = snWillTopic.QOS
 	t.mqConnect.WillRetain = snWillTopic.Retain
 	t.mqConnect.WillTopic = snWillTopic.WillTopic
@@ -120,10 +155,22 @@ func (t *connectTransaction) WillTopic(snWillTopic *snPkts1.WillTopic) error {
 }
 
 func (t *connectTransaction) WillMsg(snWillMsg *snPkts1.WillMsg) error {
-	t.mqConnect.WillMessage = snWillMsg.WillMsg
+	// WILLMSG is expected only as a reply to WILLMSGREQ.
+	if !t.willTopicReceived || t.connectSent {
+		t.log.Debug("Unexpected packet ignored: %v", snWillMsg)
+		return nil
+	}
+	if t.mqConnect.WillTopic == "" {
+		// An empty WILLTOPIC means "no will": MQTT forbids the will flag
+		// without a will topic.
+		t.mqConnect.WillFlag = false
+		t.mqConnect.WillQos = 0
+		t.mqConnect.WillRetain = false
+	} else {
+		t.mqConnect.WillMessage = snWillMsg.WillMsg
+	}
 
-	// All information successfully gathered - send MQTT connect.
-	return t.handler.mqttSend(t.mqConnect)
+	return t.sendConnect()
 }
 
 func (t *connectTransaction) Connack(mqConnack *mqPkts.ConnackPacket) error {
